@@ -61,6 +61,14 @@ def history(rng, cid, tier):
         nv = rng.choice([1, 2, 3]) if style == "vars" else rng.choice([0, 0, 1])
         g = G.SmoothGen(rng, size=rng.randint(3, 14), nvars=nv, p_cvars=0.2 if nv else 0.0, **opts)
         root = g.build()
+        if g.vars and rng.random() < 0.5:
+            # sign-of-zero sensitivity: (x + 2) / v  and  atan2(v, x - 3) see the difference between v = +0 and
+            # v = -0, so an update between zeros of opposite sign must reach every evaluator half
+            v0 = rng.choice(list(g.vars))
+            q = g._emit(("bin", "div", g._emit(("bin", "add", 0, g.const(2.0))), v0))
+            if rng.random() < 0.5:
+                q = g._emit(("bin", "add", q, g._emit(("bin", "atan2", v0, g._emit(("bin", "sub", 0, g.const(3.0)))))))
+            root = g._emit(("bin", "add", root, q))
         lines += g.lines
         vars_, kind = list(g.vars), g.kind
     for v in vars_:
@@ -116,7 +124,7 @@ def history(rng, cid, tier):
                 boxes.pop()
                 lines.append("pop")
             idx = rng.randrange(len(vars_))
-            val = rng.choice([0.0, 1.0, -0.5, gen.f32(rng.uniform(-1.5, 1.5))])
+            val = rng.choice([0.0, -0.0, 0.0, -0.0, 1.0, -0.5, gen.f32(rng.uniform(-1.5, 1.5))])
             lines.append("setvar %d %s" % (idx, gen.f2hex(val)))
             if rng.random() < 0.3:     # same value again: must report "unchanged"
                 lines.append("setvar %d %s" % (idx, gen.f2hex(val)))
